@@ -327,6 +327,7 @@ pub fn run(root: &str, outdir: &str) -> i32 {
     let mut files = vec![];
     collect_files(&src, &mut files);
     let mut out = Out::default();
+    let mut parsed: Vec<(String, syn::File)> = vec![];
     for p in &files {
         let rel = p.strip_prefix(&src).unwrap().to_string_lossy().to_string();
         let text = std::fs::read_to_string(p).unwrap();
@@ -358,7 +359,15 @@ pub fn run(root: &str, outdir: &str) -> i32 {
         }
         let mut v = V { file: rel.clone(), fn_stack: vec![], out: &mut out, tmpl_ord: BTreeMap::new() };
         v.visit_file(&file);
+        parsed.push((rel, file));
     }
+    let gates_log = match crate::gates::run(root, outdir, &parsed) {
+        Ok(l) => l,
+        Err(es) => {
+            out.errors.extend(es.into_iter().map(|e| format!("feature gates: {}", e)));
+            String::new()
+        },
+    };
     if !out.errors.is_empty() {
         for e in &out.errors {
             eprintln!("extract: {}", e);
@@ -495,6 +504,7 @@ pub fn run(root: &str, outdir: &str) -> i32 {
     writeln!(g, "\nend Educe.Generated").unwrap();
     std::fs::write(Path::new(outdir).join("CfgGates.lean"), g).unwrap();
 
+    eprintln!("extract: feature gates: {}", gates_log);
     eprintln!(
         "extract: {} files, {} templates, {} panic-capable expressions, {} builder literals, {} mod gates",
         files.len(), out.templates.len(), out.sites.len(), out.builders.len(), out.gates.len()
